@@ -2,9 +2,10 @@
   C18 — Index enumeration is the lexicographic Cartesian product of the dimensions.
   Statements are about the executable model SLV/Model/MArr.lean (`MultiRange.new` / `MultiRange.next`, the
   transcription of the Rust odometer; `keys`, `keysD2`, `keysD3` = `iproduct!` of the axis keys; `NewIdx`),
-  for EVERY rank and size vector.  Helper lemmas: SLV/Refine/ArrLemmas.lean.
+  for EVERY rank and size vector.  Helper lemmas: SLV/Refine/ArrLemmas.lean, SLV/Refine/ArrResume.lean.
 -/
 import SLV.Refine.ArrLemmas
+import SLV.Refine.ArrResume
 
 namespace SLV.Props.C18
 open SLV.MArr
@@ -86,10 +87,66 @@ theorem C18_newtype_roundtrip (n : Nat) (i : NewIdx) :
     (NewIdx.ofUsize n).toUsize = n ∧ NewIdx.ofUsize i.toUsize = i ∧
     i.sib.sib = i ∧ i.sib.toUsize = i.toUsize := ⟨rfl, rfl, rfl, rfl⟩
 
+/-! ### resumed enumerations: `k` calls of `next()`, then the remainder is consumed (by `next()` or, in the crate, by
+    any provided `Iterator` method: `collect`, `for_each`, `fold`, `count`, `last`, `nth`, `skip`, `step_by`, `min`,
+    `max`, `position`, `all`, ...) -/
+
+/-- RESUME.  For every rank, size vector and `k`: the first `k` calls of `next()` on `MultiRange::new(size)` return
+    the first `k` tuples of `lexList size` (`None` for every call beyond the end), and a consumer that then drains the
+    advanced iterator (with enough fuel to reach the first `None`) sees exactly `(lexList size).drop k` and leaves the
+    iterator exhausted.  From `C18_multirange` by the generic lemma `resume_of_nextN`. -/
+theorem C18_resume (size : List Nat) (k fuel : Nat) (hf : (lexList size).length - k < fuel) :
+    (nextN MultiRange.next k (MultiRange.new size)).1
+        = ((lexList size).take k).map some ++ List.replicate (k - (lexList size).length) none ∧
+    drain MultiRange.next fuel (nextN MultiRange.next k (MultiRange.new size)).2
+        = ((lexList size).drop k, ⟨none, size⟩) :=
+  resume_of_nextN MultiRange.next _ _ _ (C18_multirange size) rfl k fuel hf
+
+/-- the function the driver evaluates for a `resume:<k>` step of the unlabelled family, in closed form -/
+theorem C18_resume_model (size : List Nat) (k : Nat) :
+    MultiRange.resume size k
+      = (((lexList size).take k).map some ++ List.replicate (k - size.prod) none, (lexList size).drop k) := by
+  rw [multirange_resume, C18_length]
+
+/-- the labelled enumerations (lists of `iproduct!` items behind a list iterator) resumed after `k` calls: the same
+    closed form, for any item list -/
+theorem C18_resume_list {V : Type} (l : List V) (k : Nat) :
+    resumeRun SliceIter.next k (l.length + 1) l
+      = ((l.take k).map some ++ List.replicate (k - l.length) none, l.drop k) := slice_resume l k
+
+/-- the whole enumeration, hence every remainder, is strictly increasing in the lexicographic order of the tuples
+    (the `Ord` of `[usize; N]` / tuples of `usize`) -/
+theorem C18_sorted (size : List Nat) : (lexList size).Pairwise (· < ·) := lexList_sorted size
+theorem C18_resume_sorted (size : List Nat) (k : Nat) : ((lexList size).drop k).Pairwise (· < ·) :=
+  lexList_drop_sorted size k
+
+/-- `count()` of the remainder: the product of the sizes minus `k`, truncated at 0 -/
+theorem C18_resume_length (size : List Nat) (k : Nat) : ((lexList size).drop k).length = size.prod - k := by
+  rw [List.length_drop, C18_length]
+
+/-- so `min()` is the first and `max()` the last tuple of the remainder (`minLex` / `maxLex` are the folds of
+    `Iterator::min` / `max` over the lexicographic order) -/
+theorem C18_resume_min_max (size : List Nat) (k : Nat) :
+    minLex ((lexList size).drop k) = ((lexList size).drop k).head? ∧
+    maxLex ((lexList size).drop k) = ((lexList size).drop k).getLast? :=
+  ⟨minLex_sorted _ (lexList_drop_sorted size k), maxLex_sorted _ (lexList_drop_sorted size k)⟩
+
+/-- the remainder in terms of the full enumeration: `nth(j)` is tuple `k + j`, `last()` is the last tuple of the
+    shape whenever anything remains, `step_by(2)` picks the tuples `k, k+2, k+4, ..` -/
+theorem C18_resume_items (size : List Nat) (k j : Nat) :
+    ((lexList size).drop k)[j]? = (lexList size)[k + j]? ∧
+    (k < size.prod → ((lexList size).drop k).getLast? = (lexList size).getLast?) ∧
+    (stepBy2 ((lexList size).drop k))[j]? = (lexList size)[k + 2 * j]? := by
+  refine ⟨by simp, fun hk => ?_, by rw [stepBy2_getElem?]; simp⟩
+  rw [List.getLast?_drop, if_neg (by rw [C18_length]; omega)]
+
 /-- non-vacuity / concrete instance: 2 x 0 enumerates nothing, 2 x 3 enumerates the six pairs in row-major order -/
 example : lexList [2, 3] = [[0, 0], [0, 1], [0, 2], [1, 0], [1, 1], [1, 2]] := by decide
 example : (nextN MultiRange.next 7 (MultiRange.new [2, 3])).1
     = [some [0, 0], some [0, 1], some [0, 2], some [1, 0], some [1, 1], some [1, 2], none] := by decide
 example : (nextN MultiRange.next 2 (MultiRange.new [])).1 = [some [], none] := by decide
+example : MultiRange.resume [2, 3] 4 = ([some [0, 0], some [0, 1], some [0, 2], some [1, 0]], [[1, 1], [1, 2]]) := by
+  decide
+example : MultiRange.resume [2, 2] 5 = ([some [0, 0], some [0, 1], some [1, 0], some [1, 1], none], []) := by decide
 
 end SLV.Props.C18
